@@ -156,7 +156,8 @@ def library_panic(stderr):
     for line in stderr[i:].splitlines()[1:]:
         line = line.strip()
         if not line or line.startswith("goroutine ") or line.startswith("[signal") or line.startswith("/") or line.startswith("panic(") \
-                or line.startswith("runtime.") or line.startswith("created by") or line.startswith("sync.") or line.startswith("sync/"):
+                or line.startswith("runtime.") or line.startswith("created by") or line.startswith("sync.") or line.startswith("sync/") \
+                or line.startswith("panic:"):
             continue
         if "github.com/syndtr/goleveldb" in line:
             return line.rsplit("(", 1)[0][-120:]
